@@ -37,6 +37,7 @@ type desc struct {
 	QuickSecs, ThoroughSecs   int
 	RunsPerJob                int
 	HangSecs                  int
+	RunLimitSecs              int
 }
 
 type violationRec struct {
@@ -191,6 +192,17 @@ func loadFindings() []finding {
 	return f.Findings
 }
 
+const watchdogMarker = "VERIF-RUN-WATCHDOG"
+
+func markerLine(out string) string {
+	for _, l := range strings.Split(out, "\n") {
+		if i := strings.Index(l, watchdogMarker); i >= 0 {
+			return strings.TrimSpace(l[i+len(watchdogMarker)+1:])
+		}
+	}
+	return "one run did not return"
+}
+
 type checker struct {
 	replayTimeout time.Duration
 	prop          string
@@ -234,6 +246,9 @@ func (c *checker) replayProgram(node string, p *sim.Program, log bool) (ro *repl
 	out, werr := c.b.runWorker(node, env, gmp, rt)
 	b, rerr := os.ReadFile(f + ".out")
 	if rerr != nil {
+		if werr != nil && strings.Contains(out, watchdogMarker) {
+			return nil, false, out, fmt.Errorf("watchdog: %s", markerLine(out))
+		}
 		if werr != nil && strings.Contains(werr.Error(), "watchdog") {
 			return nil, false, out, werr
 		}
@@ -301,10 +316,10 @@ func (c *checker) confirm(node string, p *sim.Program) (*sim.Violation, error) {
 		defer func() { c.replayTimeout = 0 }()
 	}
 	ro, died, out, err := c.replayProgram(node, p, false)
-	if err != nil && c.d.HangSecs > 0 && strings.Contains(err.Error(), "watchdog") {
+	if err != nil && strings.Contains(err.Error(), "watchdog") {
 		// the run alone exceeds the per-run budget: execute it a second time before it is called a hang
 		if _, _, _, err2 := c.replayProgram(node, p, false); err2 != nil && strings.Contains(err2.Error(), "watchdog") {
-			return &sim.Violation{Class: "hang", Op: -1, Detail: fmt.Sprintf("the run did not terminate within %d s in two separate executions (a call that consumes hostile bytes does not return)", c.d.HangSecs)}, nil
+			return &sim.Violation{Class: "hang", Op: -1, Detail: "in two separate executions of its own " + strings.TrimPrefix(err2.Error(), "watchdog: ") + " (a library call does not return)"}, nil
 		}
 		return nil, fmt.Errorf("a run exceeded its time budget once but not twice")
 	}
@@ -490,6 +505,7 @@ func check(prop, tier string) int {
 	var violations []reported
 	knownLines := 0
 	findingReplays := 0
+	findingHangs := 0
 	for _, f := range findings {
 		if f.Property != prop || f.Replay == "" {
 			continue
@@ -506,6 +522,17 @@ func check(prop, tier string) int {
 		}
 		findingReplays++
 		ro, died, out, err := c.replayProgram(rf.Node, rf.Program, false)
+		if err != nil && strings.Contains(err.Error(), "watchdog") {
+			// the recorded program of a finding no longer returns: confirm (two more executions) and report
+			if findingHangs >= 2 {
+				continue // already reported twice; every further confirmation costs three run budgets
+			}
+			if v, cerr := c.confirm(rf.Node, rf.Program); cerr == nil && v != nil {
+				findingHangs++
+				violations = append(violations, reported{node: rf.Node, v: v, p: rf.Program})
+				continue
+			}
+		}
 		if err != nil {
 			c.infra("finding %s: %v", f.Key, err)
 			continue
@@ -609,7 +636,12 @@ func check(prop, tier string) int {
 					}
 				}
 				if werr != nil || rerr != nil {
-					if werr != nil && strings.Contains(werr.Error(), "watchdog") && c.d.HangSecs == 0 {
+					if werr != nil && strings.Contains(out, watchdogMarker) {
+						// the worker's own per-run watchdog ended it: the logged run is a hang candidate
+						jd.died = true
+						jd.hang = true
+						jd.wal = c.readWAL(j.node, j.out+".wal")
+					} else if werr != nil && strings.Contains(werr.Error(), "watchdog") && c.d.HangSecs == 0 {
 						jd.err = werr
 					} else if werr != nil && strings.Contains(werr.Error(), "watchdog") {
 						jd.died = true
@@ -641,6 +673,7 @@ func check(prop, tier string) int {
 	var samples []sampleRec
 	var candidates []reported
 	crossDiv := 0
+	hangs := 0
 
 	handle := func(jd jobDone) []job {
 		var requeue []job
@@ -660,7 +693,10 @@ func check(prop, tier string) int {
 				}
 				candidates = append(candidates, reported{node: j.node, idx: jd.wal.Idx, p: jd.wal.Program, v: &sim.Violation{Class: cls, Op: -1, Detail: crashDetail(jd.out)}})
 				// continue the rest of the chunk in a new worker (its results are not cross-compared)
-				if jd.wal.Idx+1 < j.to && len(candidates) < 50 && !jd.hang {
+				if jd.hang {
+					hangs++
+				}
+				if jd.wal.Idx+1 < j.to && len(candidates) < 50 && (!jd.hang || hangs <= 2) {
 					requeue = append(requeue, job{node: j.node, chunk: -1, from: jd.wal.Idx + 1, to: j.to, out: j.out + "r"})
 				}
 			} else {
@@ -783,6 +819,9 @@ func check(prop, tier string) int {
 		if seenClass[key] >= 2 || len(violations) >= 8 {
 			continue
 		}
+		if cand.v.Class == "hang" && seenClass["hang"] >= 2 {
+			continue // every confirmation of a hang costs two run budgets
+		}
 		if cand.v.Class == "cross-config" {
 			p, err := c.genProgram(cand.node, cand.idx)
 			if err != nil {
@@ -818,6 +857,9 @@ func check(prop, tier string) int {
 			v.OpKind = cand.v.OpKind
 		}
 		seenClass[key]++
+		if v.Class == "hang" {
+			seenClass["hang"]++
+		}
 		cand.v = v
 		if v.Class != "hang" {
 			sp, sv := c.shrink(cand.node, cand.p, v)
@@ -987,8 +1029,8 @@ func replayCmd(path string) int {
 			c.replayTimeout = 90 * time.Second
 		}
 		ro, died, out, e := c.replayProgram(rf.Node, rf.Program, true)
-		if e != nil && c.replayTimeout > 0 && strings.Contains(e.Error(), "watchdog") {
-			fmt.Printf("violation: hang: the run does not terminate within %v\n", c.replayTimeout)
+		if e != nil && strings.Contains(e.Error(), "watchdog") {
+			fmt.Printf("violation: hang: %v\n", e)
 			fmt.Printf("VIOLATION property=%s replay=%s\n", rf.Property, path)
 			return 1
 		}
